@@ -52,6 +52,8 @@ pub struct DbStats {
     pub errors_nth: AtomicU64,
     pub panics: AtomicU64,
     pub latency_points: AtomicU64,
+    /// requests for a non-empty code hash the database does not hold
+    pub unknown_code_requests: AtomicU64,
 }
 
 #[derive(Debug)]
@@ -193,7 +195,18 @@ impl DatabaseRef for SimDb {
 
     fn code_by_hash_ref(&self, code_hash: B256) -> Result<Bytecode, Self::Error> {
         self.check(ReadKey::Code(code_hash), "db.code", true)?;
-        Ok(self.codes.get(&code_hash).cloned().unwrap_or_default())
+        match self.codes.get(&code_hash) {
+            Some(code) => Ok(code.clone()),
+            None => {
+                if code_hash != KECCAK_EMPTY && code_hash != B256::ZERO {
+                    self.stats.unknown_code_requests.fetch_add(1, Ordering::Relaxed);
+                    if std::env::var_os("VERIF_DEBUG").is_some() {
+                        eprintln!("UNKNOWN CODE {code_hash} in_sim={} task={}\n{}", rt::in_sim(), if rt::in_sim() { rt::me() } else { 99 }, std::backtrace::Backtrace::force_capture());
+                    }
+                }
+                Ok(Bytecode::default())
+            }
+        }
     }
 
     fn storage_ref(&self, address: Address, index: U256) -> Result<U256, Self::Error> {
